@@ -50,6 +50,8 @@ type Plan struct {
 	// Final is what happens after the last packet when no fault ended the
 	// stream: "eof" (EOF packet), "fin", "silent".
 	Final string
+	// Repeat: an injected packet is sent Repeat more times (kind "inject")
+	Repeat int
 }
 
 // NoFault is the plan of a clean non-blocking dump.
@@ -330,6 +332,13 @@ func (m *Master) stream(idx int, c Conn, log *ConnLog, plan Plan, d ref.DumpRequ
 			case "inject":
 				if !release(i, ref.Frame(seq, evPayload(plan.Inject))) {
 					return false
+				}
+				// a desynchronised dump: the same bytes once more, so that the
+				// reader already holds a second malformed packet when the first ends the stream
+				for k := 0; k < plan.Repeat; k++ {
+					if !release(i, ref.Frame(seq, evPayload(plan.Inject))) {
+						return false
+					}
 				}
 			case "replace":
 				if !release(i, ref.Frame(seq, evPayload(plan.Inject))) {
